@@ -9,11 +9,16 @@
 (*   init  the freshly built chain shows exactly the requested chunks      *)
 (*   op    Post(op, observed value before, observed value after, returned, *)
 (*         outcome) for the borrowed run (T) and for the owned run (S),    *)
-(*         and the two runs agree field by field                           *)
+(*         and the two runs agree field by field.  The operations are the  *)
+(*         inherent ones, Buf::advance and the consuming methods of        *)
+(*         bytes::Buf (copy_to_bytes, copy_to_slice, get_u8, get_u16);     *)
+(*         every observed value carries the observing methods of Buf       *)
+(*         (remaining, chunk, has_remaining, chunks_vectored), see WF      *)
 (*   cow1  every accessor / hash / formatting / positional operation       *)
-(*         (split_to, split_off, truncate, advance, io::Read::read) of a   *)
-(*         CowBytes equals what TLA+ computes on the plain byte string,    *)
-(*         for both variants                                               *)
+(*         (split_to, split_off, truncate, advance, io::Read::read,        *)
+(*         Buf::copy_to_bytes, Buf::copy_to_slice) and Buf::get_u8 /       *)
+(*         get_u16 of a CowBytes equals what TLA+ computes on the plain    *)
+(*         byte string, for both variants                                  *)
 (*   cow2  equality and order of two CowBytes (all variant pairs) and      *)
 (*         against [u8], Bytes, Vec<u8>, &[u8; N] equal the lexicographic   *)
 (*         comparison of the plain strings                                 *)
@@ -57,17 +62,20 @@ Agree(r) ==
 
 OpOk(r) == r.op \in OpNames /\ PostBoth(r) /\ Agree(r)
 
-CowOps == {"split_to", "split_off", "truncate", "advance", "read"}
+CowOps == CowPosOps \cup GetOps
 
 (* `chk`: the positional operations whose outcome is checked (all of CowOps, except when classifying) *)
 Cow1Var(u, X, hs, chk) ==
   /\ u.len = Len(X) /\ u.empty = (X = <<>>) /\ u.rem = Len(X)
   /\ u.as_ref = X /\ u.deref = X /\ u.borrow = X /\ u.chunk = X
+  /\ u.has = (X # <<>>)                                  \* Buf::has_remaining
+  /\ u.iov_err = "" /\ IovOk(u.iov, u.iov0, IovCap, X)   \* Buf::chunks_vectored
   /\ u.clone = X /\ u.clone_eq /\ u.into_static = X
   /\ u.lhex = Hex(X, HexDigitsL) /\ u.uhex = Hex(X, HexDigitsU)
   /\ u.hash = hs                                        \* Borrow<[u8]> contract: hashes like the slice
-  (* every positional operation at every position 0 .. len + 1 was logged, and behaves like the plain string *)
-  /\ {<<u.ops[k].op, u.ops[k].p>> : k \in 1 .. Len(u.ops)} = CowOps \X (0 .. Len(X) + 1)
+  (* every positional operation at every position 0 .. len + 1 and every get operation was logged, and
+     behaves like the plain string *)
+  /\ {<<u.ops[k].op, u.ops[k].p>> : k \in 1 .. Len(u.ops)} = (CowPosOps \X (0 .. Len(X) + 1)) \cup (GetOps \X {0})
   /\ \A k \in 1 .. Len(u.ops) :
         u.ops[k].op \in chk =>
           /\ CowOpPost(u.ops[k].op, X, u.ops[k].p, u.ops[k])
